@@ -445,9 +445,11 @@ func runServer(work, prop string) {
 	}
 	if prop == "C05" {
 		pollOrder(e)
+		fakePollOrder(e)
 	}
 	if prop == "C04" {
 		serverArgsSweep(e)
+		serverConcurrentAnswers(e)
 	}
 	e.Res.Rule = "seeded random walks over the gated actions of one server connection (request arrives: call on three handler shapes / failing call / ping / unknown method / undecodable arguments / undecodable header; header decode; handler returns; peer disconnects, also in the middle of traffic) in the four modes pipelining x directIO, each followed by a drain and a disconnect; observables (handler entries, returns, responses on the wire, teardown completion) compared with the model after every action; non-trivial = distinct (mode, action-shape sequence)"
 	names := writeCases(work, "From Coq Require Import List. Import ListNotations. From RPC Require Import RunServer. From RPC.Server Require Import Model.", "scase", cases, 60)
@@ -669,6 +671,34 @@ func c08Worker(work string) {
 		reps := 60
 		if e.thorough() {
 			reps = 600
+		}
+		// an established stream first: messages of every size class, larger than any buffer of the server too
+		for _, mode := range [][2]bool{{false, false}, {true, false}, {false, true}} {
+			c, _, done := c08Serve(mode[0], mode[1])
+			go func() {
+				for {
+					if _, err := c.ReadMessage(nil); err != nil {
+						return
+					}
+				}
+			}()
+			c.WriteMessage(refPBReq(hdr{Seq: 1, Upgrade: []byte{0xC8}, Method: []byte("P.Chat")}))
+			for _, n := range []int{10, 1000, 65000, 65536, 65537, 70000, 200000, 5} {
+				for _, up := range []byte{0x10, 0x50, 0x90, 0xD0} {
+					c.WriteMessage(refPBReq(hdr{Seq: 1, Upgrade: []byte{up}, Body: genBytes(e, n, 0)}))
+				}
+				fmt.Println("CASE stream-message", n)
+			}
+			time.Sleep(5 * time.Millisecond)
+			if err := c08Probe2(mode[0], mode[1]); err != nil {
+				fmt.Println("FAIL after large stream messages a second connection does not serve a well-formed request:", err)
+			}
+			c.Close()
+			select {
+			case <-done:
+			case <-time.After(10 * time.Second):
+				fmt.Println("FAIL ServeCodec did not return within 10s after large stream messages and a disconnect")
+			}
 		}
 		for rep := 0; rep < reps; rep++ {
 			mode := [][2]bool{{false, false}, {true, false}, {false, true}, {true, true}}[rep%4]
